@@ -307,12 +307,35 @@ def rand_etp(rng, bs, tp, symmetric_only):
             asym_transform_index_flag=True, wavelet_index_ho=wi, asym_transform_flag=True, dwt_depth_ho=0)
     elif r < 0.6:
         tp["extended_transform_parameters"] = bs.ExtendedTransformParameters()
-    elif r < 0.8 and not symmetric_only:
+    elif r < 0.75 and not symmetric_only:
         tp["extended_transform_parameters"] = bs.ExtendedTransformParameters(
             asym_transform_index_flag=True, wavelet_index_ho=rng.randrange(0, 7), asym_transform_flag=rng.random() < 0.5,
             dwt_depth_ho=rng.choice([0, 1]))
         if not tp["extended_transform_parameters"]["asym_transform_flag"]:
             del tp["extended_transform_parameters"]["dwt_depth_ho"]
+    elif r < 0.93 and not symmetric_only:
+        # a flag set and its value OMITTED (documented defaults: wavelet_index_ho = haar_with_shift, dwt_depth_ho = 0),
+        # next to an explicit non-default wavelet_index / dwt_depth
+        e = bs.ExtendedTransformParameters()
+        q = rng.random()
+        if q < 0.75:
+            e["asym_transform_index_flag"] = True
+        if q > 0.5:
+            e["asym_transform_flag"] = True
+        if rng.random() < 0.3:
+            e["asym_transform_flag" if "asym_transform_flag" not in e else "asym_transform_index_flag"] = False
+        tp["extended_transform_parameters"] = e
+        if rng.random() < 0.8:
+            tp["wavelet_index"] = rng.choice([0, 1, 2, 3, 5, 6])
+        if rng.random() < 0.5:
+            tp["dwt_depth"] = rng.choice([1, 2])
+    elif r >= 0.93 and symmetric_only:
+        # symmetric spellings with a flag set and the value omitted: dwt_depth_ho defaults to 0; wavelet_index_ho
+        # defaults to haar_with_shift, which is the same transform only when wavelet_index is haar_with_shift too
+        e = bs.ExtendedTransformParameters(asym_transform_flag=True)
+        if wi == 4 and "wavelet_index" in tp:
+            e["asym_transform_index_flag"] = True
+        tp["extended_transform_parameters"] = e
 
 
 def gen_hand(seed, I):
@@ -484,6 +507,13 @@ def gen_valid(seed, I):
             if tp is not None and kw["dwt_depth_ho"] == 0 and int(kw["wavelet_index"]) == int(kw["wavelet_index_ho"]):
                 if rng.random() < 0.5:
                     rand_etp(rng, bs, tp, True)
+            elif tp is not None:
+                # asymmetric coded transform: a value equal to its documented default may be omitted under a set flag
+                e = tp.get("extended_transform_parameters", {})
+                if e.get("asym_transform_index_flag") and int(e.get("wavelet_index_ho", -1)) == 4 and rng.random() < 0.6:
+                    del e["wavelet_index_ho"]
+                if e.get("asym_transform_flag") and int(e.get("dwt_depth_ho", -1)) == 0 and rng.random() < 0.6:
+                    del e["dwt_depth_ho"]
         # extra units
         out = []
         for i, du in enumerate(units):
@@ -688,6 +718,80 @@ def is_auto(af, d, k):
     return k not in d or d[k] is af.AUTO
 
 
+def doc_default(fd, cls, key):
+    """The DOCUMENTED default of a field: vc2_fixeddicts.vc2_default_values (not the autofill module's table)."""
+    return fd.vc2_default_values[cls][key]
+
+
+def coded_transform(fd, tp):
+    """(wavelet_index, wavelet_index_ho, dwt_depth_ho) a transform_parameters entry describes once omitted fields
+    have taken their documented defaults (12.4.1, 12.4.4)."""
+    E = fd.ExtendedTransformParameters
+    e = tp.get("extended_transform_parameters", {})
+    wi = int(tp.get("wavelet_index", doc_default(fd, fd.TransformParameters, "wavelet_index")))
+    ho, dho = wi, 0
+    if e.get("asym_transform_index_flag", doc_default(fd, E, "asym_transform_index_flag")):
+        ho = int(e.get("wavelet_index_ho", doc_default(fd, E, "wavelet_index_ho")))
+    if e.get("asym_transform_flag", doc_default(fd, E, "asym_transform_flag")):
+        dho = int(e.get("dwt_depth_ho", doc_default(fd, E, "dwt_depth_ho")))
+    return wi, ho, dho
+
+
+def is_asymmetric(fd, tp):
+    wi, ho, dho = coded_transform(fd, tp)
+    return ho != wi or dho != 0
+
+
+def required_version(I, seq):
+    """(11.2.2) The version the features of a sequence description require, computed from the description and the
+    DOCUMENTED defaults only (per-feature bounds: vc2_conformance.version_constraints, the module the validator uses)."""
+    common, bs, af, fd, tables = I
+    from vc2_conformance import version_constraints as vcn
+    PCs = tables.ParseCodes
+    v = vcn.MINIMUM_MAJOR_VERSION
+
+    def on(d, cls, flag):
+        return bool(d.get(flag, doc_default(fd, cls, flag)))
+
+    def idx(d, cls):
+        return int(d.get("index", doc_default(fd, cls, "index")))
+    for du in seq.get("data_units", []):
+        pc = int(du.get("parse_info", {}).get("parse_code", doc_default(fd, fd.ParseInfo, "parse_code")))
+        v = max(v, vcn.parse_code_version_implication(pc))
+        if pc == int(PCs.sequence_header):
+            sh = du.get("sequence_header", {})
+            v = max(v, vcn.profile_version_implication(
+                int(sh.get("parse_parameters", {}).get("profile", doc_default(fd, fd.ParseParameters, "profile")))))
+            vp = sh.get("video_parameters", {})
+            fr, sr, cs = vp.get("frame_rate", {}), vp.get("signal_range", {}), vp.get("color_spec", {})
+            if on(fr, fd.FrameRate, "custom_frame_rate_flag") and idx(fr, fd.FrameRate) != 0:
+                v = max(v, vcn.preset_frame_rate_version_implication(idx(fr, fd.FrameRate)))
+            if on(sr, fd.SignalRange, "custom_signal_range_flag") and idx(sr, fd.SignalRange) != 0:
+                v = max(v, vcn.preset_signal_range_version_implication(idx(sr, fd.SignalRange)))
+            if on(cs, fd.ColorSpec, "custom_color_spec_flag"):
+                if idx(cs, fd.ColorSpec) != 0:
+                    v = max(v, vcn.preset_color_spec_version_implication(idx(cs, fd.ColorSpec)))
+                else:
+                    for key, cls, flag, f in (
+                            ("color_primaries", fd.ColorPrimaries, "custom_color_primaries_flag", vcn.preset_color_primaries_version_implication),
+                            ("color_matrix", fd.ColorMatrix, "custom_color_matrix_flag", vcn.preset_color_matrix_version_implication),
+                            ("transfer_function", fd.TransferFunction, "custom_transfer_function_flag", vcn.preset_transfer_function_version_implication)):
+                        x = cs.get(key, {})
+                        if on(x, cls, flag):
+                            v = max(v, f(idx(x, cls)))
+        else:
+            tp = None
+            if pc in (int(PCs.low_delay_picture), int(PCs.high_quality_picture)):
+                tp = du.get("picture_parse", {}).get("wavelet_transform", {}).get("transform_parameters", {})
+            elif pc in (int(PCs.low_delay_picture_fragment), int(PCs.high_quality_picture_fragment)):
+                fp = du.get("fragment_parse", {})
+                if int(fp.get("fragment_header", {}).get("fragment_slice_count", doc_default(fd, fd.FragmentHeader, "fragment_slice_count"))) == 0:
+                    tp = fp.get("transform_parameters", {})
+            if tp is not None:
+                v = max(v, vcn.wavelet_transform_version_implication(*coded_transform(fd, tp)))
+    return v
+
+
 def oracle_stream(I, ctx, gen, seed, stream, data, out, offs):
     """Checks on one serialised description.  Returns (expected major versions per sequence or None,
     list of violations [(key, description, observed, expected)])."""
@@ -768,13 +872,28 @@ def oracle_stream(I, ctx, gen, seed, stream, data, out, offs):
                          (du.get("fragment_parse", {}).get("transform_parameters"), odu.get("fragment_parse", {}).get("transform_parameters"))):
                 if a is None or b is None or "extended_transform_parameters" not in a:
                     continue
-                if "extended_transform_parameters" not in b:
+                if "extended_transform_parameters" not in b and is_asymmetric(fd, a):
                     e = a["extended_transform_parameters"]
-                    wi = int(a.get("wavelet_index", 4))
-                    asym = (e.get("asym_transform_index_flag", False) and int(e.get("wavelet_index_ho", 4)) != wi) or (
-                        e.get("asym_transform_flag", False) and int(e.get("dwt_depth_ho", 0)) != 0)
-                    if asym:
-                        viol.append(("asymmetric-etp-dropped", "seq %d unit %d" % (si, ui), None, None))
+                    for k in e:
+                        viol.append(("explicit-value-missing",
+                                     "seq %d unit %d: extended_transform_parameters[%r] = %r was dropped although the entry describes the "
+                                     "asymmetric transform (wavelet_index, wavelet_index_ho, dwt_depth_ho) = %r (omitted fields at their "
+                                     "documented defaults)" % (si, ui, k, e[k], coded_transform(fd, a)), None, repr(e[k])))
+    # ---- (2) automatic major_version = the requirement computed independently from the description
+    for si, seq in enumerate(in_seqs):
+        want = None
+        for ui, du in enumerate(seq.get("data_units", [])):
+            odu = out["sequences"][si]["data_units"][ui]
+            if "sequence_header" not in odu:
+                continue
+            if is_auto(af, du.get("sequence_header", {}).get("parse_parameters", {}), "major_version"):
+                if want is None:
+                    want = required_version(I, seq)
+                got = odu["sequence_header"]["parse_parameters"]["major_version"]
+                if got != want:
+                    viol.append(("auto-major-version-not-required-minimum",
+                                 "seq %d unit %d: automatic major_version %d but the sequence's features require %d" % (si, ui, got, want),
+                                 got, want))
     return viol
 
 
@@ -825,9 +944,9 @@ def version_crosscheck(I, stream, out):
                 for tp in all_tps(I, sub):
                     e = tp.pop("extended_transform_parameters", None)
                     if e is not None:
-                        wi = int(tp.get("wavelet_index", 4))
-                        if (e.get("asym_transform_index_flag", False) and int(e.get("wavelet_index_ho", 4)) != wi) or (
-                                e.get("asym_transform_flag", False) and int(e.get("dwt_depth_ho", 0)) != 0):
+                        t2 = dict(tp)
+                        t2["extended_transform_parameters"] = e
+                        if is_asymmetric(fd, t2):
                             lossy = True
             if lossy:
                 detail[cand] = "cannot code the asymmetric transform"
